@@ -5,6 +5,7 @@ import (
 	"reflect"
 	"runtime"
 	"sort"
+	"strings"
 	"time"
 
 	hessian "github.com/vogo/gohessian"
@@ -683,6 +684,18 @@ func init() {
 				}
 				c.Cover("interior")
 			}})
+			// very many objects in one message: late objects must keep their sharing like early ones
+			us = append(us, core.Unit{Name: "large", Cost: 60, Run: func(c *core.Ctx) {
+				for _, lc := range largeCases(tier) {
+					if !strings.Contains(lc.desc, "[]*Inner") || !c.Begin() {
+						continue
+					}
+					c.NontrivialN(1)
+					c.Res.States++
+					c.Outcome(graphCheck(c, lc.mk(), lc.desc, "large"))
+				}
+				c.Cover("large")
+			}})
 			us = append(us, core.Unit{Name: "families", Cost: 80, Run: func(c *core.Ctx) {
 				maxN := tierPick(tier, 120, 200)
 				for n := 1; n <= maxN; n++ {
@@ -702,7 +715,7 @@ func init() {
 			return us
 		},
 		RequireCover: func(string) []string {
-			l := []string{"families", "interior", "list-map-fields", "gc-during-encode"}
+			l := []string{"families", "large", "interior", "list-map-fields", "gc-during-encode"}
 			for _, f := range fillers() {
 				l = append(l, "filler:"+f.name)
 			}
